@@ -405,6 +405,49 @@ func c0910(args []string) error {
 			}
 		}
 	}
+	// a collection with a child index that holds a Circle at high latitude (the disc sticks out of the rectangle of its polygon
+	// approximation there): points all around, just inside the disc. C10: the collection contains / intersects X iff a child does.
+	{
+		centre := geometry.Point{X: 3, Y: 80}
+		const r = 600000.0
+		doc := `{"type":"FeatureCollection","features":[{"type":"Feature","geometry":{"type":"Point","coordinates":[50,50]},"properties":{}},` +
+			`{"type":"Feature","geometry":{"type":"Point","coordinates":[3,80]},"properties":{"type":"Circle","radius":600000,"radius_units":"m"}},` +
+			`{"type":"Feature","geometry":{"type":"Point","coordinates":[-60,-20]},"properties":{}}]}`
+		var colls []geojson.Object
+		for _, ic := range []int{0, 1, 2} {
+			if o, err := geojson.Parse(doc, &geojson.ParseOptions{IndexChildren: ic, IndexGeometry: 64, IndexGeometryKind: geometry.QuadTree}); err == nil {
+				colls = append(colls, o)
+			}
+		}
+		circleRect := geojson.NewCircle(centre, r, 64).Rect()
+		for b := 0; b < 360; b += 15 {
+			for _, f := range []float64{0.97, 0.6, 0.93} {
+				la, lo := geo.DestinationPoint(centre.Y, centre.X, r*f, float64(b))
+				var p geojson.Object = geojson.NewPoint(geometry.Point{X: lo, Y: la})
+				probe := "point"
+				if f == 0.93 { // a small circle: circle-in-circle containment is decided on the centres, whatever the rectangles
+					p = geojson.NewCircle(geometry.Point{X: lo, Y: la}, 20000, 64)
+					probe = "circle of 20 km"
+				}
+				outside := !circleRect.IntersectsRect(p.Rect()) // the probe lies in the part of the disc that the circle's rectangle misses
+				for ci3, coll := range colls {
+					cc, ok := coll.(geojson.Collection)
+					if !ok {
+						continue
+					}
+					anyC, anyI := false, false
+					for _, ch := range cc.Children() {
+						anyC = anyC || ch.Contains(p)
+						anyI = anyI || ch.Intersects(p)
+					}
+					what := fmt.Sprintf("with a Circle((3,80), 600 km) child, child index %d; %s at bearing %d, %.0f %% of the radius: ", []int{0, 1, 2}[ci3], probe, b, f*100)
+					ev.Emit(obj{"op": "compose", "what": what + "contains", "kind": fmt.Sprintf("%T", coll), "got": coll.Contains(p), "some_child": anyC, "outside_child_rect": outside})
+					ev.Emit(obj{"op": "compose", "what": what + "intersects", "kind": fmt.Sprintf("%T", coll), "got": coll.Intersects(p), "some_child": anyI, "outside_child_rect": outside})
+					ev.Emit(obj{"op": "compose", "what": what + "probe within collection", "kind": fmt.Sprintf("%T", coll), "got": p.Within(coll), "some_child": anyC, "outside_child_rect": outside})
+				}
+			}
+		}
+	}
 	selfLaw = true
 	wl, we := wildLaws(ev, emitLaw)
 	laws += wl
